@@ -3,6 +3,9 @@ package checks
 import (
 	"fmt"
 	"math/rand"
+	"os"
+	"os/exec"
+	"path/filepath"
 	"sort"
 	"strings"
 
@@ -802,6 +805,7 @@ func runC16(c *run.Ctx) {
 		}
 	}
 	c16GoAPI(c)
+	c16Ggqlgen(c)
 }
 
 // c16BadExtension writes an extend block that breaks a type-system rule on a type of the (well-formed) set.
@@ -906,4 +910,80 @@ func firstDiffLong(a, b string) string {
 		hiB = len(b)
 	}
 	return fmt.Sprintf("...%s\n   vs\n...%s", a[lo:hiA], b[lo:hiB])
+}
+
+// c16Ggqlgen: the ggqlgen tool reads the schema files it is given as ONE set of definitions (release 1.2.13): stubs come
+// out the same whatever the order of the files on the command line, also when a file refers to a type a later file
+// defines, and also when -e / -w are given next to -s.
+func c16Ggqlgen(c *run.Ctx) {
+	bin := filepath.Join(run.VerifDir(), "bin", "ggqlgen")
+	if _, err := os.Stat(bin); err != nil {
+		c.Inconclusive("ggqlgen binary not built")
+		return
+	}
+	work := filepath.Join(run.VerifDir(), ".work", fmt.Sprintf("c16-%d", os.Getpid()))
+	_ = os.MkdirAll(work, 0o755)
+	defer os.RemoveAll(work)
+	files := map[string]string{
+		"a.graphql": "type Query {\n  user: User\n  kinds: [Kind]\n}\n",
+		"b.graphql": "type User implements Named {\n  name: String\n  friend: User\n  kind: Kind\n}\n",
+		"c.graphql": "interface Named {\n  name: String\n}\n\nenum Kind {\n  ONE\n  TWO\n}\n\ninput Filter {\n  kind: Kind\n}\n",
+	}
+	for name, text := range files {
+		_ = os.WriteFile(filepath.Join(work, name), []byte(text), 0o644)
+	}
+	orders := [][]string{{"a.graphql", "b.graphql", "c.graphql"}, {"c.graphql", "b.graphql", "a.graphql"}, {"b.graphql", "a.graphql", "c.graphql"}, {"b.graphql", "c.graphql", "a.graphql"}}
+	listing := func(dir string) string {
+		var names []string
+		es, _ := os.ReadDir(dir)
+		for _, e := range es {
+			b, _ := os.ReadFile(filepath.Join(dir, e.Name()))
+			names = append(names, fmt.Sprintf("%s(%d bytes)", e.Name(), len(b)))
+		}
+		sort.Strings(names)
+		return strings.Join(names, " ")
+	}
+	for _, extra := range []string{"", "-e", "-w"} {
+		first := ""
+		for oi, order := range orders {
+			stub := filepath.Join(work, fmt.Sprintf("stubs-%s-%d", strings.TrimPrefix(extra, "-"), oi))
+			_ = os.MkdirAll(stub, 0o755)
+			args := []string{"-s", stub, "-p", "stubs"}
+			var paths []string
+			for _, f := range order {
+				// -w rewrites its file: every run works on copies of its own
+				p := filepath.Join(stub, "in-"+f)
+				_ = os.WriteFile(p, []byte(files[f]), 0o644)
+				paths = append(paths, p)
+			}
+			switch extra {
+			case "-e":
+				args = append(args, "-e", paths[0]+":"+filepath.Join(stub, "embed.go")+":Schema")
+			case "-w":
+				// the file named by -w is an input file as well: it is not listed a second time
+				args = append(args, "-w", paths[0])
+				paths = paths[1:]
+			}
+			args = append(args, paths...)
+			out, err := exec.Command(bin, args...).CombinedOutput()
+			c.Eval(fmt.Sprintf("ggqlgen|%s|%v", extra, order), true)
+			c.Bucket("arrangement", "ggqlgen-file-order")
+			c.Count("arrangements_loaded", 1)
+			if err != nil {
+				c.Violation("c16", map[string]interface{}{"diag": fmt.Sprintf("ggqlgen -s %s with the files in the order %v failed: %v: %s", extra, order, err, clip(string(out), 400)), "files": files})
+				break
+			}
+			for _, f := range order {
+				_ = os.Remove(filepath.Join(stub, "in-"+f))
+			}
+			_ = os.Remove(filepath.Join(stub, "embed.go"))
+			got := listing(stub)
+			if oi == 0 {
+				first = got
+			} else if got != first {
+				c.Violation("c16", map[string]interface{}{"diag": fmt.Sprintf("ggqlgen -s %s: the stubs differ with the order of the files: %v gives [%s], %v gives [%s]", extra, orders[0], first, order, got), "files": files})
+				break
+			}
+		}
+	}
 }
